@@ -647,6 +647,9 @@ class Server(BaseComponent):
         except OSError as e:
             if e.args[0] == EWOULDBLOCK:
                 return
+            if isinstance(e, SSLError) and e.args[0] in (SSL_ERROR_WANT_READ, SSL_ERROR_WANT_WRITE):
+                # (an incomplete TLS record: the rest is on its way)
+                return
             self.fire(error(sock, e))
             self._close(sock)
 
